@@ -135,6 +135,36 @@ theorem C12_decode_spec (i : Input) (h : WF i = true) (target : Int) :
     | str s => exact hinto s
     | other => rfl
 
+/-! ### which codec methods a command line yields (ParseFlags, make*) -/
+
+/-- the flag combination is refused (fatal, exit 1, nothing generated) exactly for `-gorm` without `-sql` -/
+theorem C12_flags_reject_iff (a : FlagArgs) : parseFlags a = none ↔ (a.gorm = true ∧ a.sql = false) := by
+  unfold parseFlags
+  cases a.gorm <;> cases a.sql <;> simp
+
+/-- every accepted command line switches on exactly the method groups it names (`-bit` and `-bitwise` are one
+    flag), and the Gorm methods never come without Value/Scan -/
+theorem C12_flags_faithful (a : FlagArgs) (f : Flags) (h : parseFlags a = some f) :
+    makeSwitches f = ⟨a.bit || a.bitwise, a.json, a.text, a.sql, a.gorm⟩ ∧
+    ((makeSwitches f).gorm = true → (makeSwitches f).sql = true) := by
+  unfold parseFlags at h
+  split at h
+  · cases h
+  · cases h
+    rename_i hg
+    unfold makeSwitches
+    cases hb : a.bit <;> cases hw : a.bitwise <;> cases hs : a.sql <;> cases hgm : a.gorm <;> simp_all
+
+/-- the C01 leg's prediction of the exit code is this flag check -/
+theorem C12_flags_exit (p : PkgCase) :
+    (c01Model p).1 = 1 ↔ parseFlags ⟨p.bit, false, p.json, p.text, p.sql, p.gorm⟩ = none := by
+  rw [C12_flags_reject_iff]
+  unfold c01Model
+  cases p.gorm <;> cases p.sql <;> simp
+
+example : parseFlags ⟨true, false, true, false, false, true⟩ = none ∧
+    parseFlags ⟨true, false, true, false, true, true⟩ = some ⟨true, true, false, true, true⟩ := by decide
+
 /-! ### finding region -/
 
 /-- ParseEnum of a declared name from a package-level variable initializer that sorts before the
